@@ -111,7 +111,7 @@ type suspProg struct{ src, toks string }
 // returns the starter of the C runs of suspicious accepted programs, which in
 // turn returns the function that waits for them and reports.
 func runEffectsFront(r *hlib.Run, rnd *hlib.Rand) func(r *hlib.Run, sb *hlib.StdBuild, rnd *hlib.Rand) func() {
-	n := 1000
+	n := 800
 	if r.Thorough {
 		n = 12000
 	}
